@@ -36,7 +36,7 @@ Theorem C04_importfrom_binding_eq_cpython : forall mrev is_init scope level modu
 Proof. exact importfrom_binding_eq_cpython. Qed.
 Print Assumptions C04_importfrom_binding_eq_cpython.
 
-(* resolution ends with a justified path or with the caught NameResolutionError (only when no scope binds the name) *)
+(* resolution ends with a justified path or with the caught NameResolutionError (only when no scope up to the nearest module binds the name) *)
 Theorem C04_resolve_total : forall c n,
   (exists p, resolve c n = Some p /\ justified c n p /\ canonical c n = p) \/
   (resolve c n = None /\ unbound c n /\ canonical c n = n).
@@ -56,36 +56,37 @@ Print Assumptions C04_resolve_justified.
 (* The unqualified statement "resolve = CPython's lookup" is false of the faithful model and of the code
    (each witness is replayed on the implementation on every run). *)
 Theorem C04_outer_class_leak_refuted :
-  exists c n, wf_chain c = true /\ gap_package c n = false /\ resolve c n <> py_lookup c n.
+  exists c n, wf_chain c = true /\ resolve c n <> py_lookup c n.
 Proof. exact outer_class_leak_refuted. Qed.
 Print Assumptions C04_outer_class_leak_refuted.
 
 Theorem C04_method_body_leak_refuted :
-  exists c n, wf_chain c = true /\ gap_package c n = false /\ resolve c n <> py_lookup c n.
+  exists c n, wf_chain c = true /\ resolve c n <> py_lookup c n.
 Proof. exact method_body_leak_refuted. Qed.
 Print Assumptions C04_method_body_leak_refuted.
 
-Theorem C04_parent_package_leak_refuted :
-  exists c n, wf_chain c = true /\ gap_class c n = false /\ resolve c n <> py_lookup c n.
-Proof. exact parent_package_leak_refuted. Qed.
-Print Assumptions C04_parent_package_leak_refuted.
+(* a module is the last scope consulted (its parent package is not in scope): it answers from its own members or raises *)
+Theorem C04_module_is_last_scope : forall f rest n, is_module f = true ->
+  resolve (f :: rest) n = match lookup n (fmembers f) with Some m => Some (member_path (f :: rest) n m) | None => None end.
+Proof. exact module_is_last_scope. Qed.
+Print Assumptions C04_module_is_last_scope.
 
 Theorem C04_local_binder_refuted :
-  exists c n, wf_chain c = true /\ gap_class c n = false /\ gap_package c n = false /\ canonical c n <> py_canonical true c n.
+  exists c n, wf_chain c = true /\ gap_class c n = false /\ canonical c n <> py_canonical true c n.
 Proof. exact local_binder_refuted. Qed.
 Print Assumptions C04_local_binder_refuted.
 
 (* For every chain of scopes the visitor can build and every name: unless the walk stops in an enclosing class body
-   (F1) or in a parent package (F2), Object.resolve returns exactly what CPython's scoping binds -- same path, and
+   (F1), Object.resolve returns exactly what CPython's scoping binds -- same path, and
    NameResolutionError exactly when CPython finds no static binding. *)
 Theorem C04_resolve_eq_python_modulo_known : forall c n,
-  wf_chain c = true -> gap_class c n = false -> gap_package c n = false ->
+  wf_chain c = true -> gap_class c n = false ->
   resolve c n = py_lookup c n.
 Proof. exact resolve_eq_python_modulo_known. Qed.
 Print Assumptions C04_resolve_eq_python_modulo_known.
 
 Theorem C04_canonical_eq_python_modulo_known : forall local c n,
-  wf_chain c = true -> gap_class c n = false -> gap_package c n = false -> gap_local local c n = false ->
+  wf_chain c = true -> gap_class c n = false -> gap_local local c n = false ->
   canonical c n = py_canonical local c n.
 Proof. exact canonical_eq_python_modulo_known. Qed.
 Print Assumptions C04_canonical_eq_python_modulo_known.
